@@ -121,6 +121,12 @@ def run_check(prop: str, tier: str, root: str, out=sys.stdout) -> int:
     return 0
 
 
+# rules whose instances are equivalence proofs between two programs (siblings, train swap, operand swap, projection,
+# reference programs): a proof that does not go through on an unfamiliar shape is "undecided", not a disagreement
+EQUIVALENCE_RULES = {'R12.2', 'R12.3', 'R12.2-L2', 'R07.1', 'R07.1-L5', 'R07.1-helper', 'R04.1', 'R06.5', 'R09.8', 'R11.6',
+                     'R05.2', 'R02.6', 'R11.5'}
+
+
 def _second_opinion(prop, spec, root, obs: List[Ob], out) -> List[Ob]:
     """Rules that do not hold on the source as written are re-examined on its normal form (normalize.py): the
     normal form is a value-equivalent program, so a rule discharged there is discharged for the source.  A rule is
@@ -155,6 +161,20 @@ def _second_opinion(prop, spec, root, obs: List[Ob], out) -> List[Ob]:
                 o.extra['analysed'] = 'normal form'
             out_obs = [o for o in out_obs if o.rule != r] + alt
             print(f"{prop}: {r} decided on the normal form ({len(dec)} instances)", file=out)
+            continue
+        # not discharged on either form.  If the source as written only left the rule undecided (an unrecognised
+        # shape) while the normal form exhibits a definite disagreement with the rule's expectation, that
+        # disagreement is the finding - unless the rule is an equivalence proof (two programs compared by engine C),
+        # where a failed proof on an unfamiliar shape is not a disagreement.
+        had_violation = any(o.rule == r and o.status == 'violation' and known.match(prop, o) is None for o in obs)
+        alt_viol = [o for o in alt if o.status == 'violation' and known.match(prop, o) is None]
+        if not had_violation and alt_viol and r not in EQUIVALENCE_RULES:
+            for o in alt_viol:
+                o.extra['analysed'] = 'normal form'
+                o.detail = (o.detail + '\n' if o.detail else '') + '(found on the normal form of the source)'
+            out_obs = [o for o in out_obs if o.rule != r] + alt
+            print(f"{prop}: {r} violated on the normal form ({len(alt_viol)} instances); undecided on the source as written",
+                  file=out)
     return out_obs
 
 
